@@ -208,6 +208,82 @@ theorem C15_shared_default_memo_interferes :
     (∀ q ∈ memoProgs, opensWithReset q = true ∧ freeGets q = [] ∧ cellAfter none q ≠ none) := by
   decide
 
+/-! ## a memo kept on an input object that several documents were given -/
+
+/-- the programs of documents `(resolved rows, key, pages)` that memoise on an object -/
+def objMemoProgs (docs : List (Palette × Color × Nat)) : List (List Ev) :=
+  docs.map fun d => objMemoProg d.1 d.2.1 d.2.2
+
+/-- **A memo stored on a shared input object is exact under sequential use** (why the
+single-threaded suite passes): any number of documents that were given the same object — the
+memo is then the process-wide cell — each of any number of pages, encoded one after the other
+from any leftover content of the memo, return their solo outputs.  Instance of
+`C15_global_sequential_reset`: every table starts with a first page, which resets the memo. -/
+theorem C15_object_memo_sequential (r₀ r₀' : Registry) (c₀ : Option Palette)
+    (docs : List (Palette × Color × Nat)) (i : Nat) (d : Palette × Color × Nat)
+    (hd : docs[i]? = some d) :
+    outOf (run .Global (seqSchedule (objMemoProgs docs))
+      { threads := (objMemoProgs docs).map (fun q => { prog := q, ctx := none, out := [] }),
+        sh := { reg := r₀, cell := c₀ } }) i = solo .Global r₀' (objMemoProg d.1 d.2.1 d.2.2) := by
+  apply C15_global_sequential_reset
+  · intro q hq
+    simp only [objMemoProgs, List.mem_map] at hq
+    obtain ⟨d', _, rfl⟩ := hq
+    exact freeGets_objMemoProg _ _ _
+  · intro q hq
+    simp only [objMemoProgs, List.mem_map] at hq
+    obtain ⟨d', _, rfl⟩ := hq
+    exact opensWithReset_objMemoProg _ _ _
+  · simp [objMemoProgs, hd]
+
+/-- **Documents that hold objects of their own are never affected**: the memo is then a cell
+of the encoding thread's document (`Local`), and under every schedule every document returns
+its solo output (instance of `C15_local_complete`). -/
+theorem C15_private_object_memo_exact (r₀ r₀' : Registry)
+    (docs : List (Palette × Color × Nat)) (sched : List Nat) (i : Nat)
+    (d : Palette × Color × Nat) (hd : docs[i]? = some d)
+    (hdone : (objMemoProg d.1 d.2.1 d.2.2).length ≤ sched.count i) :
+    outOf (run .Local sched (init r₀ (objMemoProgs docs))) i =
+      solo .Local r₀' (objMemoProg d.1 d.2.1 d.2.2) := by
+  apply C15_local_complete id r₀ r₀' (objMemoProgs docs) sched i _ _ _ _ hdone
+  · simp [objMemoProgs, hd]
+  · intro q hq
+    simp only [objMemoProgs, List.mem_map] at hq
+    obtain ⟨d', _, rfl⟩ := hq
+    exact canonicalB_objMemoProg _ _ _ _
+  · exact freeGets_objMemoProg _ _ _
+
+/-- two documents that were given one column-header object: a three-page one whose repeated
+rows resolve `5` to position 2 (`[2, 5]`: its page geometry / palette) and a two-page one whose
+rows resolve it to position 1 (`[5, 9]`) -/
+def sharedHeaderDocs : List (Palette × Color × Nat) := [([2, 5], 5, 3), ([5, 9], 5, 2)]
+
+/-- **The memo on the shared object is the process-wide cell: one preemption breaks it.**
+(a) document 0 is stopped after its first page, document 1 is encoded from start to finish,
+document 0 resumes: its pages 2 and 3 replay document 1's rows; (b) the same with the roles
+exchanged; (c) stopped between its pages 2 and 3, document 0 has stored its own rows, document 1
+resets and refills the memo, page 3 replays them; (d) with objects of their own (`Local`) the
+same schedules return the solo outputs; (e) a preemption before the first page or after the last
+one is harmless; (f) the other document always returns its solo output — the one-sided damage a
+check finds only if it compares *every* thread's string. -/
+theorem C15_shared_object_memo_interferes :
+    let progs := objMemoProgs sharedHeaderDocs
+    let solo0 := solo .Global [] (objMemoProg [2, 5] 5 3)
+    let solo1 := solo .Global [] (objMemoProg [5, 9] 5 2)
+    solo0 = [.idx 2, .idx 2] ∧ solo1 = [.idx 1] ∧
+    outOf (run .Global [0, 1, 1, 0, 0] (init [] progs)) 0 = [.idx 1, .idx 1] ∧
+    outOf (run .Global [0, 1, 1, 0, 0] (init [] progs)) 1 = solo1 ∧
+    outOf (run .Global [1, 0, 0, 0, 1] (init [] progs)) 1 = [.idx 2] ∧
+    outOf (run .Global [1, 0, 0, 0, 1] (init [] progs)) 0 = solo0 ∧
+    outOf (run .Global [0, 0, 1, 1, 0] (init [] progs)) 0 = [.idx 2, .idx 1] ∧
+    (∀ sched ∈ [[0, 1, 1, 0, 0], [1, 0, 0, 0, 1], [0, 0, 1, 1, 0]],
+      outOf (run .Local sched (init [] progs)) 0 = solo .Local [] (objMemoProg [2, 5] 5 3) ∧
+      outOf (run .Local sched (init [] progs)) 1 = solo .Local [] (objMemoProg [5, 9] 5 2)) ∧
+    (∀ sched ∈ [[1, 1, 0, 0, 0], [0, 0, 0, 1, 1]],
+      outOf (run .Global sched (init [] progs)) 0 = solo0 ∧
+      outOf (run .Global sched (init [] progs)) 1 = solo1) := by
+  decide
+
 /-- the same on the witness programs, by evaluation -/
 example :
     let σ := run .Global (List.replicate 7 0 ++ List.replicate 7 1) (init [] witnessProgs)
